@@ -474,7 +474,8 @@ class Cookies(Suite):
         headers = [(case['name'], text)] if case['present'] else []
         exp = v['expect']
         valid = case['present'] and not v['mutated']
-        names = list(exp['names']) if exp else []
+        names = [n for n, _ in exp]
+        values = {n: list(vals) for n, vals in exp}
         absent = 'zz-not-sent'
         while absent in names:
             absent += '-'
@@ -487,7 +488,7 @@ class Cookies(Suite):
                 if not case['present']:
                     p.expect('cookies', lambda: req.cookies, {})
                 elif valid:
-                    p.expect('cookies', lambda: req.cookies, {n: exp['values'][n][0] for n in names})
+                    p.expect('cookies', lambda: req.cookies, {n: values[n][0] for n in names})
                 else:
                     r = p.read('cookies', lambda: req.cookies)
                     if r[0] == 'ok' and not (isinstance(r[1], dict) and all(type(x) is str for x in r[1].values())):
@@ -497,7 +498,7 @@ class Cookies(Suite):
                 for n in names:
                     fn = (lambda n=n: req.get_cookie_values(n))
                     if valid:
-                        p.expect('get_cookie_values(%r)' % n, fn, list(exp['values'][n]))
+                        p.expect('get_cookie_values(%r)' % n, fn, list(values[n]))
                     elif not case['present']:
                         p.expect('get_cookie_values(%r)' % n, fn, None)
                     else:
@@ -515,7 +516,7 @@ class Cookies(Suite):
             return Info(False, ['cookie:missing_header'])
         lb = list(v['labels']) + name_labels(case['name'], case['lookup'], 'Cookie')
         lb.append('mutated' if v['mutated'] else 'valid')
-        npairs = sum(len(x) for x in exp['values'].values())
+        npairs = sum(len(x) for x in values.values())
         nt = v['mutated'] or npairs >= 2 or case['name'] != 'Cookie' or case['lookup'] != 'Cookie'
         return Info(nt, lb)
 
